@@ -39,7 +39,7 @@ ASSUMPTIONS = [
     "kill mode tests process death only (the OS page cache survives); power-loss behaviour comes from the trace model",
 ]
 
-KEYS = ['a', 'b', 'dir/x', 'dir/y', 'deep/er/z']
+KEYS = ['a', 'b', 'dir/x', 'dir/y', 'deep/er/z', 'user:1', 'user_1']     # distinct keys stay distinct files
 VALS = [I(7), S('v'), L(I(1), I(2), I(3)), D([(I(1), S('one'))]), S('x' * 300), L(*[R(i + 0.5) for i in range(40)]),
         S('big' * 3000), S('huge' * 5000), S('k' * 70000), S('m' * 150000), S('q' * 300000)]
 
